@@ -378,7 +378,7 @@ func (sc *sortCtx) structSort(t types.Type, u *types.Struct) string {
 	var fields []string
 	for i := 0; i < u.NumFields(); i++ {
 		f := u.Field(i)
-		fields = append(fields, fmt.Sprintf("(%s_%s %s)", name, mangle(f.Name()), sc.sortOf(f.Type())))
+		fields = append(fields, fmt.Sprintf("(%s %s)", fieldSelIdx(name, u, i), sc.sortOf(f.Type())))
 	}
 	if len(fields) == 0 {
 		sc.d.add("s:"+name, fmt.Sprintf("(declare-datatypes ((%s 0)) (((mk_%s))))", name, name))
@@ -389,6 +389,14 @@ func (sc *sortCtx) structSort(t types.Type, u *types.Struct) string {
 }
 
 func fieldSel(structSort, field string) string { return structSort + "_" + mangle(field) }
+
+// fieldSelIdx: selector name of field i; blank fields (several may be called "_") get their index.
+func fieldSelIdx(structSort string, u *types.Struct, i int) string {
+	if u.Field(i).Name() == "_" {
+		return fmt.Sprintf("%s_blank%d", structSort, i)
+	}
+	return fieldSel(structSort, u.Field(i).Name())
+}
 
 // box/unbox for interface values
 func (sc *sortCtx) boxFns(t types.Type) (box, unbox string, tid int) {
